@@ -9,6 +9,8 @@ import (
 	"flag"
 	"fmt"
 	"os"
+	"runtime/debug"
+	"runtime/pprof"
 	"strconv"
 
 	"verif/gv"
@@ -19,6 +21,19 @@ func main() {
 		fmt.Println("usage: gv check <id> [--tier quick|thorough] | gv replay <file> | gv list")
 		os.Exit(2)
 	}
+	// the engine allocates many short-lived immutable values; a lazier collector halves run time
+	debug.SetGCPercent(200)
+	if pf := os.Getenv("GV_PROFILE"); pf != "" {
+		f, _ := os.Create(pf)
+		pprof.StartCPUProfile(f)
+		defer pprof.StopCPUProfile()
+	}
+	code := run()
+	pprof.StopCPUProfile()
+	os.Exit(code)
+}
+
+func run() int {
 	switch os.Args[1] {
 	case "list":
 		for _, id := range gv.CheckIDs() {
@@ -33,13 +48,14 @@ func main() {
 			*tier = "quick"
 		}
 		seed, _ := strconv.Atoi(os.Getenv("VERIF_SEED"))
-		os.Exit(gv.RunCheck(id, *tier, seed))
+		return gv.RunCheck(id, *tier, seed)
 	case "dbgreplay":
 		gv.DebugReplay(os.Args[2], os.Args[3])
 	case "replay":
-		os.Exit(gv.ReplayFileCmd(os.Args[2]))
+		return gv.ReplayFileCmd(os.Args[2])
 	default:
 		fmt.Println("unknown command", os.Args[1])
-		os.Exit(2)
+		return 2
 	}
+	return 0
 }
